@@ -4,6 +4,7 @@ import Hgxv.Proofs.C19W
 import Hgxv.Proofs.C19B
 import Hgxv.Proofs.C19P
 import Hgxv.Proofs.C19S
+import Hgxv.Proofs.C19L
 import Hgxv.Proofs.C19V
 import Hgxv.Proofs.C19LinkC02
 /-! # C19 - filters keep exactly what the criteria say; validation p-values follow the definition
@@ -426,6 +427,49 @@ theorem C19_svh_step_up (ps : List Rat) (bonf : Rat) (hb : 0 ≤ bonf) :
   simp only [validated, decide_eq_true_eq]
   exact lt_of_le_of_lt hle (lt_of_lt_of_le hhit hthr)
 
+/-- the inequality of the rule is STRICT: if from rank `i+1` on (0-based position `i`) every sorted p-value lies ON or
+above its line `(j+1)·bonf` - equality included -, then the threshold is at most the line `i·bonf` of the rank before,
+and none of those p-values is validated. With `i = 0`: when no p-value is strictly below its line, the threshold is 0
+and nothing is validated, however many p-values sit exactly on their lines (a rule reading `p ≤ line` would take such
+a rank for the threshold and validate every smaller p-value: seeded change C19-d2). Hypothesis `bonf ≥ 0` = `alpha ≥ 0`. -/
+theorem C19_svh_on_the_line (ps : List Rat) (bonf : Rat) (hb : 0 ≤ bonf) :
+    let s := ps.mergeSort (fun a b => a ≤ b)
+    ∀ i, (∀ j (hj : j < s.length), i ≤ j → ((j + 1 : Nat) : Rat) * bonf ≤ s[j]) →
+      threshold ps bonf ≤ ((i : Nat) : Rat) * bonf ∧
+      ∀ j (hj : j < s.length), i ≤ j → validated ps bonf s[j] = false := by
+  intro s i hon
+  have hthr : threshold ps bonf ≤ ((i : Nat) : Rat) * bonf := by
+    show stepUp bonf s 1 0 ≤ _
+    apply stepUp_le
+    · exact mul_nonneg (by exact_mod_cast Nat.zero_le i) hb
+    · intro j hj hhit
+      have hji : j < i := by
+        apply Decidable.byContradiction
+        intro hge
+        have := hon j hj (by omega)
+        rw [Nat.add_comm] at hhit
+        exact absurd hhit (not_lt.mpr this)
+      have hc : ((1 + j : Nat) : Rat) ≤ ((i : Nat) : Rat) := by exact_mod_cast (by omega : 1 + j ≤ i)
+      exact mul_le_mul_of_nonneg_right hc hb
+  refine ⟨hthr, fun j hj hij => ?_⟩
+  have h1 : ((i : Nat) : Rat) * bonf ≤ ((j + 1 : Nat) : Rat) * bonf :=
+    mul_le_mul_of_nonneg_right (by exact_mod_cast (by omega : i ≤ j + 1)) hb
+  have h2 := hon j hj hij
+  simp only [validated, decide_eq_false_iff_not, not_lt]
+  exact le_trans hthr (le_trans h1 h2)
+
+/-- the p-value of a row is never 0: for a hyperedge of weight `1 ≤ w ≤ N` whose nodes have degrees `0 < K_i ≤ N`
+(what `C19_svh_params` gives for every row: `K_i ≥ w`, `N ≥ K_i`) the exact binomial tail is at least
+`(prod_i K_i/N) ^ N > 0` and at most 1. (A hyperedge reported with p-value 0 is below every line and is validated
+whatever alpha is: seeded change C19-d1 returned 0.0 for `prod K_i/N < 1e-16`.) -/
+theorem C19_svh_pvalue_pos (w N : Nat) (ks : List Nat) (hw : 1 ≤ w) (hwN : w ≤ N) (hk : ∀ k ∈ ks, 0 < k ∧ k ≤ N) :
+    ((ks.map (fun (k : Nat) => (k : ℚ) / (N : ℚ))).prod) ^ N ≤ pvalueWith sfExact w N ks ∧
+    0 < pvalueWith sfExact w N ks ∧ pvalueWith sfExact w N ks ≤ 1 := by
+  obtain ⟨hp0, hp1⟩ := ratios_prod_bounds ks N hk
+  unfold pvalueWith sfExact
+  rw [show w - 1 + 1 = w by omega, prodRatio_eq]
+  exact tail_bounds w N _ hwN hp0 hp1
+
 /-! #### non-vacuity of part B: hyperedges (1,2):3, (2,3):1, (1,2,3):2, (7):5 -/
 
 def C19.exampleEdges : List (List Nat × Nat) := [([1, 2], 3), ([2, 3], 1), ([1, 2, 3], 2), ([7], 5)]
@@ -468,6 +512,35 @@ example : threshold [3/100, 3/100, 3/100] (1/80) = 3/80 ∧ validated [3/100, 3/
 /-- p_(1) = 1/50 ≥ 1/60 but p_(2) = 1/40 < 2/60: both validated -/
 example : threshold [1/40, 1/50] (1/60) = 1/30 ∧ validated [1/40, 1/50] (1/60) (1/50) = true := by
   norm_num [validated, threshold, stepUp, List.mergeSort, List.merge]
+/-- ON the line: p_(2) = 1/20 = 2·(1/40) exactly and p_(1) = 3/100 ≥ 1/40: no rank is strictly below its line, the
+threshold is 0 and 3/100 is NOT validated (with `p ≤ line` the threshold would be 1/20 and 3/100 validated) -/
+example : threshold [1/20, 3/100] (1/40) = 0 ∧ validated [1/20, 3/100] (1/40) (3/100) = false := by
+  norm_num [validated, threshold, stepUp, List.mergeSort, List.merge]
+/-- the hypothesis of `C19_svh_on_the_line` with `i = 0` holds for that table (second rank with equality) -/
+example : (3/100 : Rat) ∈ [1/20, 3/100] ∧ ((0 + 1 : Nat) : Rat) * (1/40) ≤ 3/100 ∧ ((1 + 1 : Nat) : Rat) * (1/40) ≤ 1/20 ∧
+    ((1 + 1 : Nat) : Rat) * (1/40) = 1/20 := by
+  refine ⟨by simp, by norm_num, by norm_num, by norm_num⟩
+/-- rank 1 strictly below (1/100 < 1/40), rank 2 on its line (1/20 = 2/40): the threshold stays the first line -/
+example : threshold [1/20, 1/100] (1/40) = 1/40 ∧ validated [1/20, 1/100] (1/40) (1/100) = true ∧
+    validated [1/20, 1/100] (1/40) (1/20) = false := by
+  norm_num [validated, threshold, stepUp, List.mergeSort, List.merge]
+/-- ten nodes of degree 1 among 50 hyperedges seen once: the p-value is the tiny positive number
+1 - (1 - 50^-10)^50, not 0 -/
+example : 0 < pvalueWith sfExact 1 50 [1, 1, 1, 1, 1, 1, 1, 1, 1, 1] ∧
+    ((1 : ℚ) / 50) ^ 10 ≤ pvalueWith sfExact 1 50 [1, 1, 1, 1, 1, 1, 1, 1, 1, 1] := by
+  have h := C19_svh_pvalue_pos 1 50 [1, 1, 1, 1, 1, 1, 1, 1, 1, 1] (by decide) (by decide) (by decide)
+  refine ⟨h.2.1, ?_⟩
+  have hsf : pvalueWith sfExact 1 50 [1, 1, 1, 1, 1, 1, 1, 1, 1, 1] = tail 1 50 (((1 : ℚ) / 50) ^ 10) := by
+    unfold pvalueWith sfExact
+    rw [prodRatio_eq]
+    norm_num
+  rw [hsf, tail_eq_sum]
+  have hmem : 1 ∈ Finset.Ico 1 (50 + 1) := by simp
+  have hq : (0 : ℚ) ≤ 1 - ((1 : ℚ) / 50) ^ 10 := by norm_num
+  have := Finset.single_le_sum (f := fun j => ((50 : ℕ).choose j : ℚ) * (((1 : ℚ) / 50) ^ 10) ^ j * (1 - ((1 : ℚ) / 50) ^ 10) ^ (50 - j))
+    (fun j _ => by positivity) hmem
+  refine le_trans ?_ this
+  norm_num
 
 /-! ## Links to the full container models C01 … C04
 
